@@ -24,7 +24,7 @@ META = {
         "xsdata.formats.dataclass.serializers.dict:DictEncoder.encode", "xsdata.utils.namespaces:build_qname", "xsdata.utils.namespaces:split_qname",
     ],
     "bounds": [
-        "histories of <= 3 (quick) / <= 4 (thorough) operations, each a selector into a pool of 14 operations (serialize / parse / encode / decode over ParentA, ParentB, Child, "
+        "histories of <= 3 (quick) / <= 4 (thorough) operations, each a selector into a pool of 34 operations (incl. one ENVIRONMENT step: a module with a second class for an already resolved qualified name is imported) (serialize / parse / encode / decode over ParentA, ParentB, Child, "
         "Holder with xsi:type, Wild with wildcard namespace memo, Lists, Basic; lookups without a target class; three failing calls), applied to ONE shared XmlContext, "
         "NodeParser (native and lxml seam handlers), EventGenerator, DictEncoder and DictDecoder; every call's outcome (value or exception class) is compared with the same call on fresh instances",
         "selector driven: every history within the bound is executed (the solver only prunes and enumerates); nothing here is value-symbolic",
@@ -37,9 +37,49 @@ META = {
 _KNOWN_CACHE = known("C14-cache-parent-namespace")
 
 
+# the loaded model classes are environment: a mutable list, so that a history can contain "a further module is imported"
+_LOADED = list(ALL_MODELS) + [LateV1]
+_DUMMY_MODULES = []
+
+
+def _world_reset():
+    import sys
+
+    if LateV2 in _LOADED:
+        _LOADED.remove(LateV2)
+    for name in _DUMMY_MODULES:
+        sys.modules.pop(name, None)
+    del _DUMMY_MODULES[:]
+
+
+def _import_late(env):
+    """A module defining another class for the qualified name {urn:a}late is imported: the class becomes visible to every context
+    and len(sys.modules) - the signal XmlContext.build_xsi_cache watches - changes."""
+    import sys
+    import types
+
+    if LateV2 not in _LOADED:
+        _LOADED.append(LateV2)
+        name = "xsv_late_module_%d" % len(_DUMMY_MODULES)
+        sys.modules[name] = types.ModuleType(name)
+        _DUMMY_MODULES.append(name)
+    return "imported"
+
+
+def _late_doc(env, child, clazz=None):
+    root = mutate.Node("{urn:a}late", {}, None, None, [mutate.Node("{urn:a}" + child, {}, "1")])
+    return env.parsers["native"].parse(mutate.linearize(root), clazz)
+
+
+def _enum_qname_doc(env, uri):
+    """Enums document whose QName-valued enum element is written as t:a with the prefix t bound to `uri`."""
+    root = mutate.Node("{urn:a}en", {}, None, None, [mutate.Node("{urn:a}c", {}, "red"), mutate.Node("{urn:a}q", {}, "t:a")], [("t", uri)])
+    return env.parsers["native"].parse(mutate.linearize(root), Enums)
+
+
 class Env:
     def __init__(self):
-        seam.stub_loaded_classes(ALL_MODELS)
+        seam.stub_loaded_classes(_LOADED)
         self.ctx = XmlContext()
         self.parsers = {h: NodeParser(config=ParserConfig(), context=self.ctx, handler=seam.SEAM_HANDLERS[h]) for h in ("native", "lxml")}
         self.lenient = NodeParser(config=ParserConfig(fail_on_unknown_properties=False), context=self.ctx, handler=seam.SEAM_HANDLERS["native"])
@@ -172,6 +212,14 @@ OPS = [
     ("lenient parse of Basic with an unconvertible int", _bad_int_lenient),
     ("real native handler: parse an ElementTree element with unprefixed QName content", _etree_source),
     ("real native handler: parse bytes that bind the default namespace", _default_ns_doc),
+    ("parse <late><p/> without a target class (qualified name answered by one or two classes)", lambda e: _late_doc(e, "p")),
+    ("parse <late><q/> without a target class", lambda e: _late_doc(e, "q")),
+    ("ENVIRONMENT: a module defining a second class named {urn:a}late is imported", _import_late),
+    ("parse Enums with q='t:a', t bound to urn:a (QName-valued enum member)", lambda e: _enum_qname_doc(e, "urn:a")),
+    ("FAIL parse Enums with q='t:a', t bound to urn:b (no such member)", lambda e: _enum_qname_doc(e, "urn:b")),
+    ("ser Compound ['warm'] (a str only the str choice takes)", lambda e: _ser(e, Compound(choice=["warm"]))),
+    ("ser Compound ['7'] (a str that the int choice takes too)", lambda e: _ser(e, Compound(choice=["7"]))),
+    ("decode Compound {'choice': ['0.5', 'x']}", lambda e: e.dec.decode({"choice": ["0.5", "x"]}, Compound)),
 ]
 # operations that build metadata of the namespace-less class Child under different inherited namespaces
 _CHILD_NS_GROUP = {0: "urn:a", 2: "urn:a", 1: "urn:b", 3: "urn:b", 4: None}
@@ -227,16 +275,51 @@ def history(o0: int, o1: int, o2: int) -> bool:
     return _history(ops)
 
 
+_IMPORT_OP = [n for n, (label, _f) in enumerate(OPS) if label.startswith("ENVIRONMENT")][0]
+_PRISTINE = {}
+
+
+def _pristine(o):
+    """Outcome of operation o run ALONE in a pristine interpreter (computed once per check run by plan(), one subprocess per operation):
+    the reference that process-wide state (module-level memo tables, the converter registry) cannot have touched."""
+    import os
+    import pickle
+
+    path = PART.get("_solo")
+    if not path:
+        return None
+    if o not in _PRISTINE:
+        f = os.path.join(path, "%d.pickle" % o)
+        _PRISTINE[o] = pickle.load(open(f, "rb")) if os.path.exists(f) else None
+    return _PRISTINE[o]
+
+
+def _dump_solo(o, path):
+    import os
+    import pickle
+
+    _world_reset()
+    out = _outcome(OPS[o][1], Env())
+    with open(os.path.join(path, "%d.pickle" % o), "wb") as f:
+        pickle.dump(out, f)
+
+
 def _history(ops):
     if _excluded(ops):
         return True
     with untraced():  # the history is concrete on this path: no symbolic value flows below
+        _world_reset()
         shared = Env()
         ok = True
+        world_changed = False
         for o in ops:
             got = _outcome(OPS[o][1], shared)
             want = _outcome(OPS[o][1], Env())
             ok = ok and _same(got, want)
+            world_changed = world_changed or o == _IMPORT_OP
+            alone = None if world_changed else _pristine(o)
+            if alone is not None:
+                ok = ok and _same(got, alone)
     return result(ok)
 
 
@@ -260,14 +343,39 @@ PRE = {}
 EXPLAIN = {"history": lambda o0, o1, o2: [OPS[o][0] for o in ([o0, o1] + ([o2] if o2 >= 0 else []))]}
 
 
+def _solo_dir():
+    """One pristine subprocess per operation (16 at a time); the directory lives as long as the runner process."""
+    import atexit
+    import os
+    import shutil
+    import subprocess
+    import sys
+    import tempfile
+    from concurrent.futures import ThreadPoolExecutor
+
+    path = tempfile.mkdtemp(prefix="xsv_c14_")
+    atexit.register(shutil.rmtree, path, True)
+    env = dict(os.environ, XSV_PART="{}", XSV_TWIN="0", PYTHONHASHSEED="0")
+    code = "import sys; sys.path[:0] = [%r, %r]; from harness import c14; c14._dump_solo(int(sys.argv[1]), sys.argv[2])" % (
+        os.environ.get("XSDATA_SRC", "/repo"), os.path.dirname(os.path.dirname(os.path.abspath(__file__))))
+
+    def one(o):
+        subprocess.run([sys.executable, "-c", code, str(o), path], env=env, capture_output=True, timeout=300)
+
+    with ThreadPoolExecutor(16) as ex:
+        list(ex.map(one, range(len(OPS))))
+    return path
+
+
 def plan(tier):
     jobs = []
+    solo = _solo_dir()
     for first in range(len(OPS)):
-        jobs.append(Job("history", {"first": first, "third": 0}, 240, 60, note="selector driven, length 2"))
-        jobs.append(Job("history", {"first": first, "third": len(OPS)}, 600, 60, note="selector driven, length 2 and 3"))
+        jobs.append(Job("history", {"first": first, "third": 0, "_solo": solo}, 240, 60, note="selector driven, length 2"))
+        jobs.append(Job("history", {"first": first, "third": len(OPS), "_solo": solo}, 600, 60, note="selector driven, length 2 and 3"))
         if tier != "quick":
             for second in range(len(OPS)):
                 if _excluded([first, second]):
                     continue  # the whole partition is the excluded signature of the listed known finding (would be vacuous)
-                jobs.append(Job("history", {"first": first, "second": second, "third": len(OPS)}, 900, 60, note="selector driven, length 4"))
+                jobs.append(Job("history", {"first": first, "second": second, "third": len(OPS), "_solo": solo}, 900, 60, note="selector driven, length 4"))
     return jobs
